@@ -101,6 +101,74 @@ PROPS["C05"] = dict(
     level_note="Trusted: Kani/CBMC; Header::hash stub; relies on C03's height monotonicity for the step from 'stored latest' to 'every ingested prune point'.",
 )
 
+# ------------------------------------------------------------------------------------------------
+# unit "logs": style S2, logs.rs + cursor.rs mounted, BTreeMap -> model
+# ------------------------------------------------------------------------------------------------
+STRIP_TESTS = (r"\n#\[cfg\(test\)\]\nmod tests \{.*\Z", "\n", 1, "S")
+COLLECTIONS = ("shared", "models/collections.rs", "src/collections.rs")
+_rows = [dict(name="c06::row_%02d" % i, prop="C06", tier="thorough", timeout=1500,
+              encodes="logs::compare", bounds="local shape %d x all 16 remote shapes, 2 authors x 2 logs, all u32 heights" % i) for i in range(16)]
+def _relax_vacuous(unit, names, labels):
+    """harnesses whose local side is empty can never need a range: that branch is legitimately unreachable there"""
+    for h in unit["harnesses"]:
+        if h["name"] in names:
+            h["may_be_unreachable"] = labels
+            h["witnesses"] = []
+
+
+UNITS["logs"] = dict(
+    name="logs",
+    stage=[("repo",), ("crate", "harness/logs"), ("lock",), SYM, COLLECTIONS,
+           ("mount", "p2panda-core/src/logs.rs", "src/staged/logs.rs",
+            [(r"^use std::collections::BTreeMap;$", "use crate::verif_models::BTreeMap;", 1), STRIP_TESTS]),
+           ("mount", "p2panda-core/src/cursor.rs", "src/staged/cursor.rs", [STRIP_TESTS])],
+    repo_paths=["src/staged/"],
+    functions=[
+        ("p2panda-core/src/logs.rs", "logs::compare", r"pub fn compare<A, L>"),
+        ("p2panda-core/src/cursor.rs", "Cursor::compare", r"pub fn compare\(&self"),
+        ("p2panda-core/src/cursor.rs", "Cursor::advance", r"pub fn advance\(&mut self"),
+        ("p2panda-core/src/cursor.rs", "Cursor::log_height", r"pub fn log_height\(&self"),
+    ],
+    harnesses=[
+    ] + [dict(name="c06::one_author_local_%s" % n, prop="C06", timeout=300, encodes="logs::compare",
+              bounds="1 author x 2 logs: local shape '%s' x all 5 remote shapes (author absent / present-empty / each subset of logs), all u32 heights" % n)
+         for n in ("absent", "empty_entry", "log0", "log1", "both")] + [
+        dict(name="c06::two_authors_full_vs_full", prop="C06", timeout=300, encodes="logs::compare", bounds="2x2 logs all present on both sides"),
+        dict(name="c06::two_authors_full_vs_partial", prop="C06", timeout=300, encodes="logs::compare", bounds="remote lacks one log per author"),
+        dict(name="c06::two_authors_partial_vs_full", prop="C06", timeout=300, encodes="logs::compare", bounds="local lacks logs the remote has"),
+        dict(name="c06::two_authors_full_vs_missing_author", prop="C06", timeout=300, encodes="logs::compare", bounds="remote lacks an author"),
+        dict(name="c06::two_authors_full_vs_empty_author_entry", prop="C06", timeout=300, encodes="logs::compare", bounds="remote has an author entry with an empty log map"),
+        dict(name="c06::two_authors_disjoint", prop="C06", timeout=300, encodes="logs::compare", bounds="disjoint log sets"),
+        dict(name="c06::cursor_compare_full_vs_partial", prop="C06", timeout=300, encodes="Cursor::compare -> logs::compare", bounds="cursor holds the remote side"),
+    ] + _rows + [
+        dict(name="c07::advance_is_pointwise_max", prop="C07", timeout=300, encodes="Cursor::advance, Cursor::log_height",
+             bounds="8 concrete (shape, target) cases over 2 authors x 2 logs, all u32 heights"),
+        dict(name="c07::advances_commute", prop="C07", timeout=300, encodes="Cursor::advance x2 in both orders, Cursor::state",
+             bounds="5 concrete (shape, targets) cases, all u32 heights"),
+    ],
+)
+_relax_vacuous(UNITS["logs"], ["c06::one_author_local_absent", "c06::one_author_local_empty_entry", "c06::row_00"], ["C06.missing"])
+_LOGS_TB = ["Kani 0.68 / CBMC 6.11 / cadical",
+            "model: std BTreeMap replaced by a sorted inline array of capacity 2 implementing unique keys + ascending iteration (std's own implementation is out of CBMC's reach: 2 inserts -> 37 GB)"]
+PROPS["C06"] = dict(
+    units=["logs"], trusted_base=_LOGS_TB,
+    assumptions=["maps of at most 2 authors x 2 logs (2 model slots per map)", "shapes (which keys exist) enumerated concretely, heights symbolic"],
+    bounds="quick: 1 author x 2 logs all 25 shape pairs + 7 two-author shape pairs; thorough: all 16x16 log-presence pairs for 2 authors x 2 logs; all u32 heights",
+    outside="std's BTreeMap implementation itself; maps beyond 2x2; 'random large maps' (sampling) is not done",
+    level_text=("Bounded model checking of the real logs::compare / Cursor::compare over a contract model of BTreeMap: for every enumerated pair of map shapes and ALL "
+                "u32 heights the diff is exactly {(remote height or start, local height] for logs the remote lacks or is behind on}, nothing else, and merging it yields the pointwise maximum."),
+    level_note="Trusted: Kani/CBMC; BTreeMap contract model (sorted unique keys); bound 2 authors x 2 logs.",
+)
+PROPS["C07"] = dict(
+    units=["logs"], trusted_base=_LOGS_TB,
+    assumptions=["2 authors x 2 logs", "Acked::ack (topic check, semaphore, SQLite upsert) is not encoded"],
+    bounds="one advance from an arbitrary state of 8 concrete shapes; two advances in both orders for 5 cases; all u32 heights",
+    outside="the ack half of the statement: Acked::ack's topic check and the persisted cursor in SQLite (FFI) cannot be put in front of CBMC",
+    level_text=("Bounded model checking of the real Cursor::advance/log_height/state: post-state = pointwise max(pre, advance), other logs untouched, never backwards, "
+                "order of two advances irrelevant — for ALL u32 heights. PARTIAL: the ack/topic/persistence clause is outside the solver's reach."),
+    level_note="Trusted: Kani/CBMC; BTreeMap contract model. Partial claim: only the cursor algebra, not Acked::ack + SQLite.",
+)
+
 PROPS["C18"].update(
     level_text=("Bounded model checking of the real HybridTimestamp::increment: the solver decides the strict-increase "
                 "assertion for every 64-bit (timestamp, lamport, wall-clock) triple and for chains of two increments with "
